@@ -309,3 +309,24 @@ pub fn line_case(max_lines: usize, invalid: bool) -> BoxedStrategy<TextCase> {
         .prop_map(move |((old, new), alg, bytes, opt)| TextCase { old, new, tok: 0, alg, bytes: bytes || invalid, opt })
         .boxed()
 }
+
+/// Aliased views (texts that share memory): both texts are sub-slices of ONE buffer (`c.old`), e.g.
+/// a document and its truncated copy.  The length of `c.new` selects the shape and the cut point;
+/// cuts are moved down to a char boundary when the buffer is valid UTF-8.
+pub fn alias_views(c: &TextCase) -> (std::ops::Range<usize>, std::ops::Range<usize>) {
+    let buf = &c.old.0;
+    let n = buf.len();
+    let sel = c.new.0.len();
+    let mut cut = if n == 0 { 0 } else { (sel * 7 + 3) % (n + 1) };
+    if let Some(s) = c.old.as_str() {
+        while !s.is_char_boundary(cut) {
+            cut -= 1;
+        }
+    }
+    match sel % 4 {
+        0 => (0..n, 0..cut),   // new is a truncated view of old (same start address)
+        1 => (0..cut, 0..n),   // old is a truncated view of new
+        2 => (0..n, cut..n),   // new is a tail view of old (same end address)
+        _ => (0..cut, cut..n), // adjacent views
+    }
+}
